@@ -111,7 +111,21 @@ Fixpoint split_last {A} (p : A -> bool) (l : list A) : option (list A * A * list
       end
   end.
 
+(* Which of the three repairs of match.go the tree has (detected on every run by replaying the
+   recorded witnesses on the Go code, harness/props/C12.py); [false] is the behaviour before
+   the repair, kept so that the refuted statements stay checked:
+     latest_exact  sortNPMVersions looks for the tag latest among the comma separated tags
+                   (before: strings.Contains on the whole tag text, F-C12-2)
+     match_sorts   matchRequirement sorts a copy of the list before filtering
+                   (before: matches in input order, F-C12-1b)
+     tie_break     SortVersions orders versions that compare equal by their strings
+                   (before: no tie-break, F-C12-1) *)
+Record mcfg := { latest_exact : bool; match_sorts : bool; tie_break : bool }.
+Definition cfg_old : mcfg := {| latest_exact := false; match_sorts := false; tie_break := false |}.
+Definition cfg_repaired : mcfg := {| latest_exact := true; match_sorts := true; tie_break := true |}.
+
 Section WithOracle.
+  Variable C : mcfg.
   Variable O : oracle.
 
   (* ---------- sortNPMVersions ---------- *)
@@ -126,10 +140,12 @@ Section WithOracle.
 
   Definition is_pre (v : version) : bool :=
     o_parses O sys_npm (ver v) && o_prerelease O sys_npm (ver v).
-  Definition has_latest (v : version) : bool := contains s_latest (tags v).
+  Definition has_latest (v : version) : bool :=
+    if latest_exact C then existsb (bytes_eqb s_latest) (split_on 44 (tags v))
+    else contains s_latest (tags v).
 
-  (* the tail of sortNPMVersions: the last version whose tags contain the text latest goes
-     to the end, unless it is a prerelease while some version is not *)
+  (* the tail of sortNPMVersions: the last version tagged latest goes to the end, unless it
+     is a prerelease while some version is not *)
   Definition reposition (base : list version) : list version :=
     match split_last has_latest base with
     | None => base
@@ -142,7 +158,9 @@ Section WithOracle.
   (* ---------- SortVersions ---------- *)
   Definition gen_less (sys : N) (a b : version) : bool :=
     if o_parses O sys (ver a) && o_parses O sys (ver b)
-    then (o_compare O sys (ver a) (ver b) <? 0)%Z
+    then if tie_break C && (o_compare O sys (ver a) (ver b) =? 0)%Z
+         then str_lt (ver a) (ver b)
+         else (o_compare O sys (ver a) (ver b) <? 0)%Z
     else str_lt (ver a) (ver b).
 
   Definition sort_versions (vs : list version) : list version :=
@@ -165,8 +183,9 @@ Section WithOracle.
          end.
 
   Definition match_generic (sys : N) (req : bytes) (vs : list version) : list version :=
-    if o_constraint O sys req then filter (fun v => o_match O sys req (ver v)) vs
-    else filter (fun v => bytes_eqb req (ver v)) vs.
+    let vs' := if match_sorts C then sort_versions vs else vs in
+    if o_constraint O sys req then filter (fun v => o_match O sys req (ver v)) vs'
+    else filter (fun v => bytes_eqb req (ver v)) vs'.
 
   Definition match_requirement (req : vkey) (vs : list version) : list version :=
     if N.eqb (pk_sys (vk_pkg req)) sys_npm then match_npm (vk_ver req) vs
